@@ -765,9 +765,53 @@ def c02_r2(ctx):
     ctx.check(good, key(fi, "deepcopy"), "the directive must be removed from a deep copy, not from the authored node", fi.loc(), okmsg="removal works on a deep copy")
     # both printed documents go through the removal
     gs = repo.func(RT + "get_operation_as_str")
-    pa = calls_named(gs.node, "print_ast")
-    good = len(pa) == 2 and all(c.args and norm(c.args[0]).startswith("self._get_node_without_mixin_directive(") for c in pa)
-    ctx.check(good, key(gs, "printed nodes"), "a printed definition bypasses the @mixin removal", gs.loc(), okmsg="operation and fragments printed after @mixin removal")
+    vals = _opstr_values(repo, plugin=False, fragments=True)
+    pa = [c for v in vals for c in ast.walk(v) if isinstance(c, ast.Call) and dotted(c.func) == "print_ast"]
+    good = len(vals) == 1 and len(pa) == 2 and all(c.args and norm(c.args[0]).startswith("self._get_node_without_mixin_directive(") for c in pa)
+    ctx.check(good, key(gs, "printed nodes"), f"a printed definition bypasses the @mixin removal: {[norm(v)[:200] for v in vals]}", gs.loc(), okmsg="operation and fragments printed after @mixin removal")
+
+
+def _opstr_values(repo, plugin: bool, fragments: bool) -> List[ast.expr]:
+    """symbolic value(s) of the document returned by get_operation_as_str in one scenario, helpers inlined"""
+    from ..absint import inline_helpers
+    gs = repo.func(RT + "get_operation_as_str")
+
+    def atom(e):
+        t = norm(strip_pre(e))
+        if t in ("self.plugin_manager", "self.plugin_manager is not None"):
+            return plugin
+        if t in ("self._fragments_used_as_mixins or self._unpacked_fragments", "self._fragments_used_as_mixins", "self._unpacked_fragments"):
+            return fragments
+        return None
+    outs = [o for o in Interp(gs, atom).run() if o.kind == "return"]
+    if fragments:
+        outs = [o for o in outs if any("loop body once" in t for t in o.trace)]
+    else:
+        outs = [o for o in outs if not any("loop body once" in t for t in o.trace)]
+    seen = {}
+    for o in outs:
+        v = inline_helpers(strip_pre(o.value), repo, gs, atom)
+        seen.setdefault(norm(v), v)
+    if not seen:
+        raise AnalysisError("get_operation_as_str: no symbolic outcome")
+    return list(seen.values())
+
+
+@rule("C02.R7", "the generate_operation_str hook receives, and replaces, the whole document (operation + fragment definitions) of its own operation", min_instances=3, also=["C15"])
+def c02_r7(ctx):
+    repo = ctx.repo
+    gs = repo.func(RT + "get_operation_as_str")
+    plain = [norm(v) for v in _opstr_values(repo, plugin=False, fragments=True)]
+    for frs in (True, False):
+        vals = _opstr_values(repo, plugin=True, fragments=frs)
+        want_doc = [norm(v) for v in _opstr_values(repo, plugin=False, fragments=frs)]
+        good = len(vals) == 1 and isinstance(vals[0], ast.Call) and norm(vals[0].func) == "self.plugin_manager.generate_operation_str" and len(vals[0].args) == 1 \
+            and [norm(vals[0].args[0])] == want_doc and norm(kw(vals[0], "operation_definition") or ast.Constant(0)) == "self.operation_definition"
+        ctx.check(good, key(gs, f"hook over the whole document, fragments={frs}"),
+                  f"with plugins the returned document is {[norm(v)[:260] for v in vals]}; it must be hook(<document without plugins>, operation_definition=self.operation_definition): "
+                  "a plugin that stores the string it is shown (ExtractOperations) otherwise keeps an operation without its fragment definitions, and the client sends a document with unknown fragments",
+                  gs.loc(), okmsg=f"fragments={frs}: returned = hook(whole document, operation_definition=own definition)")
+    ctx.check(len(plain) == 1, key(gs, "single document"), f"several document shapes: {plain}", gs.loc(), okmsg="one document shape without plugins")
 
 
 @rule("C02.R3", "authored GraphQL nodes are only rewritten by the two documented rewrites", min_instances=3)
@@ -864,17 +908,13 @@ def c02_r4(ctx):
             and ".union(self._get_fragments_names(self.fragments_definitions[<elem>(self._fragments_used_as_mixins)].selection_set))" in v
     ctx.check(good, key(ar, "closure"), "related fragments must be mixins + their recursive spreads + unpacked fragments", ar.loc(), okmsg="closure = mixins U closure(mixins) U unpacked")
     gs = repo.func(RT + "get_operation_as_str")
-    lp = [n for n in ast.walk(gs.node) if isinstance(n, ast.For)]
-    good = len(lp) == 1 and norm(lp[0].iter) == "sorted(self._get_all_related_fragments())"
-    if good:
-        aug = [st for st in lp[0].body if isinstance(st, ast.AugAssign)]
-        good = len(aug) == 1 and is_name(aug[0].target, "operation_str") and f"self.fragments_definitions[{norm(lp[0].target)}]" in norm(aug[0].value) and "print_ast(" in norm(aug[0].value)
-        par = None
-        for n in walk_no_nested(gs.node):
-            if isinstance(n, ast.If) and lp[0] in n.body:
-                par = n
-        good = good and par is not None and norm(par.test) in ("self._fragments_used_as_mixins or self._unpacked_fragments",)
-    ctx.check(good, key(gs, "definitions appended"), "one printed definition per related fragment must follow the operation", gs.loc(), okmsg="each related fragment definition appended once")
-    first = [st for st in gs.node.body if isinstance(st, ast.Assign) and is_name(st.targets[0], "operation_str")]
-    good = len(first) == 1 and norm(first[0].value) == "print_ast(self._get_node_without_mixin_directive(self.operation_definition))"
-    ctx.check(good, key(gs, "operation printed"), "the operation text is not print_ast of the operation definition", gs.loc(), okmsg="operation text = print_ast(definition)")
+    op_txt = "print_ast(self._get_node_without_mixin_directive(self.operation_definition))"
+    frag_txt = "print_ast(self._get_node_without_mixin_directive(self.fragments_definitions[<elem>(sorted(self._get_all_related_fragments()))]))"
+    vals = [norm(v) for v in _opstr_values(repo, plugin=False, fragments=True)]
+    ctx.check(vals == [f"{op_txt} + ('\\n\\n' + {frag_txt})"], key(gs, "definitions appended"),
+              f"one printed definition per related fragment (sorted closure) must follow the operation, separated by a blank line; the document is {vals}", gs.loc(), okmsg="each related fragment definition appended once, in sorted order")
+    vals0 = [norm(v) for v in _opstr_values(repo, plugin=False, fragments=False)]
+    ctx.check(vals0 == [op_txt], key(gs, "operation printed"), f"without fragments the document must be print_ast of the operation definition; it is {vals0}", gs.loc(), okmsg="operation text = print_ast(definition)")
+    cond = [n for n in walk_no_nested(gs.node) if isinstance(n, ast.If) and any(isinstance(x, ast.For) for x in n.body)]
+    ctx.check(all(norm(n.test) == "self._fragments_used_as_mixins or self._unpacked_fragments" for n in cond), key(gs, "fragment condition"),
+              f"fragment definitions are appended under `{[norm(n.test) for n in cond]}`", gs.loc(), okmsg="definitions appended whenever a fragment is used as mixin or unpacked")
